@@ -792,7 +792,9 @@ step_image_op (machine_t *m, const sim_op_t *op, const int64_t *a, int n, mstep_
 	    /* the API's two refusal rules, on the model's CURRENT state */
 	    if (s->is_alpha_of > 0) refused = 1;
 	    if (m->img[map].has_alpha >= 0) refused = 1;
-	    if (map == slot) refused = refused || 0;    /* self-attachment: neither rule refuses it */
+	    /* an image that is its own alpha map both has a map and is one: the
+	     * shortest possible chain, so it must be refused like any other */
+	    if (map == slot) refused = 1;
 	}
 	st->executed = 1;
 	apply_prop (s->img, s->fmt, s->kind == MOP_BITS, op->kind, a, n, mi);
